@@ -168,6 +168,83 @@ def call(ex, st, fr, callee, last, args, argops, dest):
         if mode == "saturating":
             lo, hi = ty_range(ity)
             return IV(T.ite(T.lt(exv, lo), lo, T.ite(T.lt(hi, exv), hi, exv)), ity)
+    if ity and re.search(r">::(wrapping|checked|overflowing)_neg$", c):
+        mode = re.search(r">::(\w+?)_neg$", c).group(1)
+        _use("core::num::<impl int>::%s_neg" % mode)
+        x = args[0].t
+        lo, hi = ty_range(ity)
+        signed = INT_TYPES[ity][0]
+        # the only value whose negation leaves the type: MIN for signed types, every non-zero value for unsigned ones
+        ovf = T.eq(x, lo) if signed else T.bnot(T.eq(x, 0))
+        if mode == "wrapping":
+            if signed:
+                return IV(T.ite(ovf, lo, T.neg(x)), ity)
+            return IV(ex.wrap(st, T.neg(x), ity), ity)
+        if mode == "checked":
+            if isinstance(ovf, bool):
+                return _none() if ovf else _some(IV(T.neg(x), ity))
+            return E._Alts([(T.bnot(ovf), _some(IV(T.neg(x), ity))), (ovf, _none())])
+        return NotImplemented
+    if ity and re.search(r">::overflowing_(add|sub|mul)$", c):
+        op = re.search(r">::overflowing_(add|sub|mul)$", c).group(1)
+        _use("core::num::<impl int>::overflowing_%s" % op)
+        exv = {"add": T.add, "sub": T.sub, "mul": T.mul}[op](args[0].t, args[1].t)
+        inr = T.in_range(exv, ity)
+        w = ex.wrap(st, exv, ity)
+        return E.Agg("tuple", (IV(w, ity), T.bnot(inr)))
+    if ity and re.search(r">::(wrapping|checked)_abs$", c):
+        mode = re.search(r">::(\w+?)_abs$", c).group(1)
+        _use("core::num::<impl int>::%s_abs" % mode)
+        x = args[0].t
+        lo, _ = ty_range(ity)
+        ismin = T.eq(x, lo)
+        absx = T.ite(T.le(0, x), x, T.neg(x))
+        if mode == "wrapping":
+            return IV(T.ite(ismin, lo, absx), ity)
+        if isinstance(ismin, bool):
+            return _none() if ismin else _some(IV(absx, ity))
+        return E._Alts([(T.bnot(ismin), _some(IV(absx, ity))), (ismin, _none())])
+    if ity and c.endswith(">::abs_diff"):
+        _use("core::num::<impl int>::abs_diff")
+        a, b = args[0].t, args[1].t
+        uty = ity if ity.startswith("u") else "u" + ity[1:]
+        return IV(T.ite(T.le(b, a), T.sub(a, b), T.sub(b, a)), uty)
+    if ity and re.search(r">::checked_(div|rem)$", c):
+        op = re.search(r">::checked_(div|rem)$", c).group(1)
+        _use("core::num::<impl int>::checked_%s (truncated division; None for a zero divisor or MIN / -1)" % op)
+        a, b = args[0].t, args[1].t
+        lo, _ = ty_range(ity)
+        bad = T.eq(b, 0)
+        if INT_TYPES[ity][0]:
+            bad = T.bor(bad, T.band(T.eq(a, lo), T.eq(b, -1)))
+        if bad is True:
+            return _none()
+        if bad is not False:
+            tid = bad.get_id()
+            if tid in st.true_ids:
+                return _none()
+            if tid not in st.false_ids:
+                raise E.Fork([(bad, None), (z3.Not(bad), None)])
+        q, r = ex.tdivmod(st, a, b, ity)
+        return _some(IV(q if op == "div" else r, ity))
+    if ity and re.search(r">::(min|max)$", c) or re.match(r"^<(%s) as Ord>::(min|max)$" % INTS, c):
+        _use("Ord::min / Ord::max on primitive integers")
+        a, b = args[0], args[1]
+        if c.endswith("min"):
+            return IV(T.ite(T.le(a.t, b.t), a.t, b.t), a.ty)
+        return IV(T.ite(T.le(a.t, b.t), b.t, a.t), a.ty)
+    if re.match(r"^(std|core)::cmp::max::<(%s)>$" % INTS, c):
+        _use("core::cmp::min/max::<int>")
+        a, b = args[0], args[1]
+        return IV(T.ite(T.le(a.t, b.t), b.t, a.t), a.ty)
+    if ity and c.endswith(">::checked_pow"):
+        _use("core::num::<impl int>::checked_pow (concrete exponent)")
+        e = ex.conc(st, args[1].t, "pow exponent")
+        b = args[0].t
+        if is_conc(b):
+            r = b ** e
+            return _some(IV(r, ity)) if T.in_range(r, ity) else _none()
+        return NotImplemented
     if ity and c.endswith(">::unsigned_abs"):
         _use("core::num::<impl int>::unsigned_abs")
         x = args[0].t
@@ -217,7 +294,26 @@ def call(ex, st, fr, callee, last, args, argops, dest):
             if not T.in_range(r, ity):
                 return _panic(ex, st, "attempt to multiply with overflow") if ex.prog.overflow_checks else IV(T.wrap_c(r, ity), ity)
             return IV(r, ity)
+        if e <= 4:
+            # symbolic base, small concrete exponent: the exact power as a product term; out of range = the arithmetic-overflow panic
+            # (or the wrapped value where the compilation has no overflow checks)
+            exv = 1
+            for _ in range(e):
+                exv = T.mul(exv, b)
+            inr = T.in_range(exv, ity)
+            if inr is True:
+                return IV(exv, ity)
+            if ex.prog.overflow_checks:
+                return _outcome_alts(ex, st, [(inr, IV(exv, ity)), (T.bnot(inr), _panic(ex, st, "attempt to multiply with overflow"))])
+            return IV(ex.wrap(st, exv, ity), ity)
         return NotImplemented
+    if ity and re.search(r">::wrapping_sh(l|r)$", c):
+        k = ex.conc(st, args[1].t, "shift amount") % INT_TYPES[ity][1]
+        _use("core::num::<impl int>::wrapping_shl / wrapping_shr (concrete amount, taken modulo the width)")
+        if c.endswith("shl"):
+            return IV(ex.wrap(st, T.mul(args[0].t, 1 << k), ity), ity)
+        q, _ = ex.divmod_pow2(st, args[0].t, k) if k else (args[0].t, 0)
+        return IV(q, ity)
     if ity and c.endswith(">::saturating_sub"):
         _use("core::num::<impl uint>::saturating_sub")
         a, b = args[0].t, args[1].t
@@ -394,6 +490,72 @@ def call(ex, st, fr, callee, last, args, argops, dest):
         if r is NotImplemented:
             return NotImplemented
         return E.EnumV("Result", 1, (r,))
+    if re.match(r"^Option::<.*>::expect$", c) and isinstance(args[0], E.EnumV):
+        _use("Option::expect")
+        v = args[0]
+        if v.variant == 1:
+            return v.fields[0]
+        return _panic(ex, st, args[1].s if isinstance(args[1], E.StrV) else "Option::expect failed")
+    if re.match(r"^Result::<.*>::(unwrap|expect)$", c) and isinstance(args[0], E.EnumV):
+        _use("Result::unwrap / Result::expect")
+        v = args[0]
+        if v.variant == 0:
+            return v.fields[0]
+        return _panic(ex, st, "called `Result::unwrap()` on an `Err` value")
+    if re.match(r"^Result::<.*>::(is_ok|is_err)$", c):
+        v = _deref_all(ex, st, args[0])
+        return (v.variant == 0) == c.endswith("is_ok")
+    if re.match(r"^Result::<.*>::ok$", c) and isinstance(args[0], E.EnumV):
+        _use("Result::ok")
+        v = args[0]
+        return _some(v.fields[0]) if v.variant == 0 else _none()
+    if re.match(r"^Result::<.*>::unwrap_or$", c) and isinstance(args[0], E.EnumV):
+        _use("Result::unwrap_or")
+        v = args[0]
+        return v.fields[0] if v.variant == 0 else args[1]
+    if re.match(r"^Option::<.*>::ok_or::<.*>$", c) and isinstance(args[0], E.EnumV):
+        _use("Option::ok_or")
+        v = args[0]
+        return E.EnumV("Result", 0, (v.fields[0],)) if v.variant == 1 else E.EnumV("Result", 1, (args[1],))
+    if re.match(r"^Option::<.*>::or$", c) and isinstance(args[0], E.EnumV):
+        _use("Option::or")
+        return args[0] if args[0].variant == 1 else args[1]
+    if re.match(r"^Option::<.*>::(copied|cloned)$", c) and isinstance(args[0], E.EnumV):
+        _use("Option::copied / Option::cloned")
+        v = args[0]
+        return _some(_deref_all(ex, st, v.fields[0])) if v.variant == 1 else _none()
+    m = re.match(r"^Option::<.*>::unwrap_or_else::<.*?(\{closure@.*\})>$", c)
+    if m and isinstance(args[0], E.EnumV):
+        _use("Option::unwrap_or_else (closure executed from its MIR)")
+        v = args[0]
+        if v.variant == 1:
+            return v.fields[0]
+        clo = ex.prog.closures.get(norm_type(m.group(1)))
+        if clo is None:
+            return NotImplemented
+        alts = ex_call_local(ex, st, clo, [args[1]], fr)
+        return _map_alts(ex, st, alts, lambda val: val)
+    m = re.match(r"^Result::<.*>::map::<.*?(\{closure@.*\})>$", c)
+    if m and isinstance(args[0], E.EnumV):
+        _use("Result::map (closure executed from its MIR)")
+        v = args[0]
+        if v.variant == 1:
+            return v
+        clo = ex.prog.closures.get(norm_type(m.group(1)))
+        if clo is None:
+            return NotImplemented
+        alts = ex_call_local(ex, st, clo, [args[1], v.fields[0]], fr)
+        return _map_alts(ex, st, alts, lambda val: E.EnumV("Result", 0, (val,)))
+    if re.match(r"^(std|core)::mem::replace::<.*>$", c) and isinstance(args[0], E.RefV):
+        _use("core::mem::replace")
+        old = ex.read_ref(st, args[0])
+        ex.write_ref(st, args[0], args[1])
+        return old
+    if re.match(r"^Option::<.*>::take$", c) and isinstance(args[0], E.RefV):
+        _use("Option::take")
+        old = ex.read_ref(st, args[0])
+        ex.write_ref(st, args[0], _none())
+        return old
     if re.match(r"^Option::<.*>::unwrap_or$", c):
         _use("Option::unwrap_or")
         v = args[0]
